@@ -26,8 +26,8 @@ pub fn prop() -> Prop {
         ],
         subs: vec![
             Sub::enumerate("font_data", font_data),
-            Sub::tape("builtin_render", 60, 100_000, 1_500_000, builtin_render),
-            Sub::tape("custom_fonts", 80, 100_000, 1_500_000, custom_fonts),
+            Sub::tape("builtin_render", 60, 100_000, 5_000_000, builtin_render),
+            Sub::tape("custom_fonts", 80, 100_000, 5_000_000, custom_fonts),
         ],
     }
 }
